@@ -278,6 +278,38 @@ pub fn check(thorough: bool, _seed: u64) -> Check {
         classes: vec![("knot_x_zero", false), ("knot_x_negative", false), ("knot_x_positive", false), ("scaled_by_2^-60_or_2^40", false), ("knot_on_or_next_to_the_unshifted_antiderivative", false)],
         bounds: json!({"degrees": "0..7", "knot.x": "{1e50,-1e60,1e76,1e-50,-1e-70,3e37} (degree 7: only 3e37, its result type forms x^8)", "coefficients": "c_i = (i+1) a_i / x^(i+1), a_i in {0,1,-2.5,7} (zero when not a normal number): every term of F(knot.x) is of ordinary size", "knot.y": "{0,1,-3.5}"}),
     };
+    // knot abscissae swept through every whole number -300..300, every power of two 2^-20..2^40 of both signs, and halves:
+    // special paths for "nice" abscissae (integer powers, exact tables) end somewhere
+    let sweep = Phase {
+        name: "whole-number-and-power-of-two-knot-abscissae",
+        units: 8,
+        split: 1,
+        body: Box::new(move |unit, cx| {
+            let d = unit;
+            let j = cx.choose(601 + 122 + 40);
+            let x = if j < 601 {
+                j as f64 - 300.0
+            } else if j < 601 + 122 {
+                let k = (j - 601) as i32;
+                (if k % 2 == 0 { 1.0 } else { -1.0 }) * 2f64.powi(k / 2 - 20)
+            } else {
+                (j - 601 - 122) as f64 * 12.5 + 0.5
+            };
+            let c: Vec<f64> = match cx.choose(2) {
+                0 => (0..=d).map(|i| [1.5, -2.25, 3.125, -4.0625, 5.5, -6.75, 7.875, -8.9375][i] / 2f64.powi(8 * i as i32)).collect(),
+                _ => (0..=d).map(|i| if i % 2 == 0 { 1.0 } else { -0.75 } / 3f64.powi(5 * i as i32)).collect(),
+            };
+            let knot = Knot { x, y: 5.0 };
+            cx.nontrivial();
+            cx.class(if x == 0.0 { 0 } else if x < 0.0 { 1 } else { 2 });
+            if cx.sampling() {
+                cx.sample(json!({"degree": d, "coefficients": fjs(&c), "knot": [fj(knot.x), fj(knot.y)]}));
+            }
+            by_degree7!(d, knots_leaf(&c, knot, cx))
+        }),
+        classes: vec![("knot_x_zero", false), ("knot_x_negative", false), ("knot_x_positive", false), ("scaled_by_2^-60_or_2^40", false), ("knot_on_or_next_to_the_unshifted_antiderivative", false)],
+        bounds: json!({"degrees": "0..7", "knot.x": "every whole number -300..300; +-2^k for k = -20..40; 0.5 + 12.5 j for j < 40", "coefficients": "two vectors whose i-th coefficient shrinks like 2^-8i resp. 3^-5i (terms of comparable size at |x| of a few hundred)", "knot.y": "5"}),
+    };
     // knots whose abscissa is next to (not on) a non-zero root of the unshifted antiderivative F0: F0(knot.x) is small by cancellation
     let near_roots: Vec<(Vec<f64>, f64)> = vec![
         (vec![1.0, 1.0], -2.0),                 // F0 = x + x^2/2, root -2
@@ -312,7 +344,7 @@ pub fn check(thorough: bool, _seed: u64) -> Check {
         id: "C07",
         rule: "choice tree: (degree, knot) resp. (degree, (a,b)) unit x one coefficient per lane; each leaf runs the real indefinite / integral / derivative / Segment::integral; non-trivial = >=2 non-zero coefficients (and knot.x not in {0,2} in the first phase)".into(),
         assumptions: vec!["one ulp = distance to the neighbouring float of the returned coefficient".into()],
-        phases: vec![knots, definite, extreme, roots_ph],
+        phases: vec![knots, definite, extreme, roots_ph, sweep],
         extra: Default::default(),
         controls: vec![],
     }
